@@ -1,12 +1,13 @@
 """C01 -- a distributed run returns exactly the values sequential evaluation would (engine E1 SimCluster; E2 slice in c01 real tier)."""
 
-from vlib.checks._sim import make_plan, run_shard  # noqa: F401
+from vlib.checks import _sim
+from vlib.common.core import case_rng, guarded
 
 ID = "C01"
 LEVEL = "exploration"
 MANIFEST = dict(
     engine="E1-simcluster", engine_path="vlib/simcluster.py",
-    kind="real controller + scheduler against SimBridge (executable nondeterministic model of the executors, seeded adversarial schedulers); task bodies run through the real runner and serde",
+    kind="(E1) real controller + scheduler against SimBridge (executable nondeterministic model of the executors, seeded adversarial schedulers); task bodies run through the real runner and serde",
     technique="runtime monitoring of the real controller loop behind the Bridge seam: generated jobs x cluster shapes x event-delivery schedules; task callables return symbolic terms identifying every argument and position; the returned State.outputs is compared with an independent sequential evaluator",
     text="Held = for every generated job, environment and schedule the run returned exactly the requested datasets with values equal to sequential evaluation.",
     note="the executors are a model (orders allowed = those the transports allow; per-origin FIFO in the default classes); multi-output values are bound to key-sorted output names (C10 owns the declared-order question).",
@@ -15,5 +16,28 @@ RULE = ("case = one controller run: generated job DAG (0-16 tasks quick / 40 tho
         "edges with static args and gaps; ext_outputs any subset) x environment 1-4 hosts x 1-4 workers (GPU workers as needed) x scheduler policy (uniform, eager, lazy, late, skewed, purge-first, "
         "data-first) x PYTHONHASHSEED per shard; non-trivial = >=2 tasks and >=1 edge; distinct = digest(job skeleton, environment, policy, executor-action/event order)")
 ASSUMPTIONS = ["executors eventually execute every command (fair model)", "per-origin FIFO of events except in the reorder-by-retransmission class"]
-REQUIRED_COUNTERS = ["runs", "runs_returned", "outputs_compared", "runs_multi_host", "commands_transmit", "commands_fetch"]
-plan = make_plan("C01", "values", 59)
+REQUIRED_COUNTERS = ["runs", "runs_returned", "outputs_compared", "runs_multi_host", "commands_transmit", "commands_fetch", "real_cluster_runs", "real_cluster_outputs_compared"]
+_sim_plan = _sim.make_plan("C01", "values", 59)
+
+
+def run_shard(spec, col):
+    """E1 shards (SimCluster) plus a thin E2 slice: generated jobs on a real local cluster (real processes, shm, zmq, serde), no faults."""
+    if spec.get("kind") != "real":
+        return _sim.run_shard(spec, col)
+    from vlib.checks import c05
+    seed, shard = spec["seed"], spec["shard"]
+    for i in range(spec["n"]):
+        if col.out_of_time():
+            break
+        if col.want(i):
+            rng = case_rng(seed, shard, i)
+            sc = {"kind": "none", "shape": rng.choice([(1, 1), (1, 2), (2, 1), (2, 2), (3, 1), (2, 3)]), "random_job": True, "max_tasks": 8}
+            guarded(col, i, c05.run_scenario, col, sc, spec["shard_no"], i % 8, i, rng, 21000, "C01")
+
+
+def plan(tier, seed, scale=1.0):
+    specs = _sim_plan(tier, seed, scale)
+    q = tier == "quick"
+    for c in range(4):
+        specs.append(dict(kind="real", shard=f"real{c}", shard_no=c, n=max(1, int((3 if q else 75) * scale)), budget_s=100 if q else 1500, timeout_s=280 if q else 2400, prop="C01"))
+    return specs
